@@ -68,6 +68,14 @@ CLAIMS = {
                 'incl. f32 text); that the real formatter never iterates the hash map for output order is what the correspondence checks.',
         'design_ref': 'DESIGN.md §6 C17',
     },
+    'C16': {
+        'text': 'C16_tiles: for EVERY worker count n >= 1 and EVERY behaviour of the f32 pipeline (an arbitrary function F, universally quantified), the scope list is computed without '
+                'overflow, has n scopes, starts at (0,1), ends at (48,49), is chained, never steps backwards and names only valid positions; C16_sum: the legal deals of the scopes, '
+                'scope after scope, are exactly the deals of the full enumeration (with C04_scoped each worker yields exactly its piece). Nothing about IEEE arithmetic is assumed.',
+        'note': 'Lean kernel + standard axioms; the integer part of calculate_scopes is hand-modelled and tied by the correspondence for every n in 1..4096 (quick) with the native Float32 pipeline, '
+                'plus end-to-end sums on the real evaluator.',
+        'design_ref': 'DESIGN.md §6 C16',
+    },
     'C07': {
         'text': 'Theorem C07: for seven distinct cards the category given by the interval arms read from the source equals the rule-book category of the strongest '
                 'five-card hand (C07_intervals proved symbolically for all indexes 1..7462; combined with C01 and the numbering theorem).',
